@@ -561,15 +561,29 @@ def _mcp_check(tier, seed):
                                  'detail': f'request {k} carries malformed transactions but was answered with a result'})
         log(f'[mcp] {len(script) - 1} malformed-JSON requests with the error at every byte alignment of a multi-byte line')
         # ---- a burst: 150 explain_matching calls in flight at once (plus a calculation and a rate look-up): every one answered
-        script = [('send', f'explain_{i % len(DISPOSALS)}') for i in range(150)] + [('send', 'calc_all'), ('send', 'fx')]
-        ev, resp = play(root, 'burst', script, cls, patience=90)
+        # (on a ledger of 480 lines, so that many calls are really in flight together)
+        big, bdisp = [], []
+        for i_ in range(120):
+            t_ = f'S{i_:03d}'
+            big += [f'2021-02-{1 + i_ % 20:02d} BUY {t_} 10 @ {3 + i_ % 7}', f'2021-06-{1 + i_ % 25:02d} SELL {t_} 4 @ {5 + i_ % 5} FEES 1',
+                    f'2021-06-{3 + i_ % 25:02d} BUY {t_} 2 @ {4 + i_ % 3}', f'2022-0{1 + i_ % 9}-11 SELL {t_} 3 @ {6 + i_ % 4}']
+            bdisp.append((f'2021-06-{1 + i_ % 25:02d}', t_))
+            bdisp.append((f'2022-0{1 + i_ % 9}-11', t_))
+        bigtext = '\n'.join(big) + '\n'
+        bcls2 = dict(cls)
+        for i_, (d_, t_) in enumerate(bdisp):
+            bcls2[f'bigx_{i_}'] = call('explain_matching', {'transactions': bigtext, 'disposal_date': d_, 'ticker': t_})
+        bcls2['bigcalc'] = call('calculate_report', {'transactions': bigtext})
+        script = [('send', f'bigx_{i_}') for i_ in range(len(bdisp))] + [('send', 'bigcalc'), ('send', 'calc_all'), ('send', 'fx')]
+        script += [('send', f'explain_{i % len(DISPOSALS)}') for i in range(40)]
+        ev, resp = play(root, 'burst', script, bcls2, patience=120)
         sent = {e['id']: e['class'] for e in ev if e['event'] == 'Send'}
         missing = [rid for rid in sent if rid not in resp]
         if missing:
             findings.append({'prop': 'C20', 'kind': 'unanswered', 'case': 0, 'input': f'{len(script)} pipelined requests', 'data': {'class': 'burst'},
-                             'detail': f'{len(missing)} of {len(script)} requests sent in one burst (150 explain_matching, calculate_report, get_fx_rate) were never answered'})
+                             'detail': f'{len(missing)} of {len(script)} requests sent in one burst (280 explain_matching on ledgers of 13 and 480 lines, calculate_report, get_fx_rate) were never answered'})
         else:
-            wrong = [sent[rid] for rid in sent if sent[rid] in expect and digest_of(resp[rid])[0] != expect[sent[rid]]['kind']]
+            wrong = [sent[rid] for rid in sent if (sent[rid] in expect and digest_of(resp[rid])[0] != expect[sent[rid]]['kind']) or (sent[rid].startswith('big') and digest_of(resp[rid])[0] != 'result')]
             if wrong:
                 findings.append({'prop': 'C20', 'kind': 'burst_answers', 'case': 0, 'input': f'{len(script)} pipelined requests', 'data': {},
                                  'detail': f'in a burst of {len(script)} requests, {len(wrong)} were answered with the wrong kind of response: {sorted(set(wrong))[:5]}'})
